@@ -30,7 +30,8 @@
 (* Set's enc field: the map flavour is built with V = []byte and the identity serializer    *)
 (* (like the repo's own test value type); the empty value "" is handed over either as an    *)
 (* empty non-nil slice (enc "empty") or as a nil slice (enc "nil").  Both are the empty     *)
-(* value - the model ignores enc, the map must not care either.                             *)
+(* value - the model ignores enc, the map must not care either.  enc "refused": a value the  *)
+(* value serializer returns an error for; that Set fails and leaves the map as it was.       *)
 EXTENDS Integers, Sequences, FiniteSets, TLC
 
 CONSTANTS MapNK, SetNK,   \* number of keys of the map / set flavour
@@ -92,9 +93,12 @@ Read == Same /\ fresh' = FALSE
 Do(s) ==
   CASE s.op = "reset" ->
          /\ cfg' = s.cfg /\ cur' = Empty(s.cfg) /\ com' = Empty(s.cfg) /\ ever' = FALSE /\ fresh' = FALSE /\ ev' = s
-    [] s.op = "Set" ->
+    [] s.op = "Set" /\ s.enc # "refused" ->
          /\ Write(s, <<s.v>>)
          /\ ev' = [op |-> "Set", k |-> s.k, v |-> s.v, enc |-> s.enc, res |-> Ok, st |-> St(cfg, cur', ever)]
+    [] s.op = "Set" /\ s.enc = "refused" ->   \* the value serializer the map was built with refuses the value:
+         /\ Read                               \* the call fails and has changed nothing (not the size, not the key mirror)
+         /\ ev' = [op |-> "Set", k |-> s.k, v |-> s.v, enc |-> s.enc, res |-> [err |-> "refused"], st |-> St(cfg, cur, ever)]
     [] s.op = "Add" ->              \* set flavour: the element's value is the empty value
          /\ Write(s, <<"">>)
          /\ ev' = [op |-> "Add", k |-> s.k, res |-> Ok, st |-> St(cfg, cur', ever)]
@@ -127,7 +131,7 @@ Do(s) ==
          /\ Read                    \* probe instance is thrown away, the original one stays in use
          /\ ev' = [op |-> "ProbeReopen", res |-> [restored |-> ever, err |-> "ok"], st |-> St(cfg, cur, ever)]
 
-Encs(v) == IF v = "" THEN EmptyEncs ELSE {"bytes"}
+Encs(v) == (IF v = "" THEN EmptyEncs ELSE {"bytes"}) \cup {"refused"}
 Mutators(c) == IF c.flavour = "map"
                  THEN UNION {{[op |-> "Set", k |-> k, v |-> v, enc |-> e] : k \in Keys(c), e \in Encs(v)} : v \in Vals}
                  ELSE [op : {"Add"}, k : Keys(c)]
@@ -169,7 +173,7 @@ StepOK ==
   /\ (e.op \in {"Set", "Add", "Delete"} =>
         /\ <<com, ever>>' = <<com, ever>>
         /\ \A k \in Keys(cfg) : k # e.k => cur'[k] = cur[k])
-  /\ (e.op = "Set" => cur'[e.k] = <<e.v>>)
+  /\ (e.op = "Set" => cur'[e.k] = (IF e.enc = "refused" THEN cur[e.k] ELSE <<e.v>>))
   /\ (e.op = "Add" => cur'[e.k] # <<>>)
   /\ (e.op = "Delete" => cur'[e.k] = <<>> /\ e.res.deleted = (cur[e.k] # <<>>))
   /\ (e.op = "Get" => e.res.v = cur[e.k])
